@@ -398,20 +398,56 @@ class Guards:
             if failing and passing:
                 self.switches.append((b, failing, passing))
 
+    def spec_match(self, b, spec):
+        """None if switch b's condition does not match spec; else info dict (ops for Cmp)."""
+        e = self.body.switch_discr_expr(b)
+        if isinstance(spec, Cmp):
+            ops = spec.find(e, self.ctx, self.env)
+            if ops:
+                return dict(ops=ops)
+            if self.via_callee(e, spec):
+                return dict(via_callee=True)
+            return None
+        if spec.matches_expr(e, self.ctx, self.env):
+            if getattr(spec, "within", None):
+                ls = set()
+                for s2, lab, d in self.body.edge_conditions(b):
+                    ls |= self.ctx.leaves(self.body.switch_discr_expr(s2), self.env)
+                if not has_all(ls, spec.within):
+                    return None
+            return {}
+        if self.via_callee(e, spec):
+            return dict(via_callee=True)
+        return None
+
     def guard_blocks(self, spec):
-        """Switch blocks (with a failing edge) whose condition matches spec -> list of
-        (block, passing_edges, info)."""
-        out = []
-        for b, failing, passing in self.switches:
-            e = self.body.switch_discr_expr(b)
-            if isinstance(spec, Cmp):
-                ops = spec.find(e, self.ctx, self.env)
-                if not ops:
-                    if self.via_callee(e, spec):
-                        out.append((b, passing, dict(via_callee=True)))
+        """Guards for spec -> list of (block, passing_edges, info). A matching switch is a guard
+        when one of its edges cannot reach a target except through (the passing edge of)
+        another guard - the classic case being an edge that only rejects. Computed as a
+        fixpoint so that `a || b` (the false edge of `a` leads to the target only via `b`)
+        is recognised while `if a { log }` (both edges reach the target freely) is not."""
+        cands = {}
+        for b in sorted(self.reach):
+            if self.body.blocks[b]["t"]["k"] != "switch":
+                continue
+            info = self.spec_match(b, spec)
+            if info is not None:
+                cands[b] = info
+        removed = set(self.removed)
+        guards = {}
+        changed = True
+        while changed:
+            changed = False
+            R = self.body.can_reach(self.targets, removed, self.stop_blocks)
+            for b, info in cands.items():
+                if b in guards:
                     continue
-                if spec.pass_op:
-                    # which comparison holds on the passing edge(s)?
+                edges = self.body.out_edges(b)
+                failing = [(d, l) for d, l in edges if d not in R and d in self.N]
+                passing = [(d, l) for d, l in edges if d in R]
+                if not (failing and passing):
+                    continue
+                if isinstance(spec, Cmp) and spec.pass_op and info.get("ops"):
                     okp = True
                     t = self.body.blocks[b]["t"]
                     for d, lab in passing:
@@ -419,26 +455,18 @@ class Guards:
                         if truth is None:
                             okp = False
                             break
-                        for op in ops:
+                        for op in info["ops"]:
                             eff = op if truth else mir.NEG[op]
                             if eff != spec.pass_op:
                                 okp = False
                     if not okp:
-                        out.append((b, [], dict(bad_polarity=True, ops=ops)))
+                        guards[b] = ([], dict(bad_polarity=True, ops=info["ops"]))
                         continue
-                out.append((b, passing, dict(ops=ops)))
-            else:
-                if spec.matches_expr(e, self.ctx, self.env):
-                    if getattr(spec, "within", None):
-                        ls = set()
-                        for s2, lab, d in self.body.edge_conditions(b):
-                            ls |= self.ctx.leaves(self.body.switch_discr_expr(s2), self.env)
-                        if not has_all(ls, spec.within):
-                            continue
-                    out.append((b, passing, {}))
-                elif self.via_callee(e, spec):
-                    out.append((b, passing, dict(via_callee=True)))
-        return out
+                guards[b] = (passing, info)
+                for d, _ in passing:
+                    removed.add((b, d))
+                changed = True
+        return [(b, p, i) for b, (p, i) in sorted(guards.items())]
 
     def via_callee(self, e, spec):
         """Helper following: the branch honours the result of a call to a workspace-local
